@@ -446,7 +446,7 @@ func c28ProtoOffsets(b []byte) []int {
 			case 2:
 				lenAt := q
 				l, r := varint(q, end)
-				if r < 0 || r+int(l) > end || int(l) < 0 {
+				if r < 0 || l > uint64(end-r) {
 					return false
 				}
 				if record {
